@@ -183,7 +183,9 @@ fn params_obligations(obs: &mut Obs, t: &str, fmt: Fmt, tk: Tk, params: &CountVe
     if let (Ok(a), Ok(b)) = (params.check_ref(), back.check_ref()) {
         must(obs, t, fmt, "max_features", a.max_features() == b.max_features());
         must(obs, t, fmt, "convert_to_lowercase", a.convert_to_lowercase() == b.convert_to_lowercase());
-        must(obs, t, fmt, "split_regex", a.split_regex().as_str() == b.split_regex().as_str());
+        // (`split_regex()` unwraps the regex cell: a restored set without it panics)
+        let re = |p: &linfa_preprocessing::CountVectorizerValidParams| p.split_regex().as_str().to_string();
+        same_behaviour(obs, t, fmt, "split_regex", &observe(|| re(a)), || re(b), |x, y| x == y);
         must(obs, t, fmt, "n_gram_range", a.n_gram_range() == b.n_gram_range());
         must(obs, t, fmt, "normalize", a.normalize() == b.normalize());
         must(
@@ -321,7 +323,8 @@ fn count_params(obs: &mut Obs, k: &mut Knobs, x: &Array1<String>, _q: &Array1<St
         const V: &str = "CountVectorizerValidParams";
         obs.class(V);
         for (fmt, back) in roundtrip(obs, V, valid, HASHED) {
-            must(obs, V, fmt, "split_regex", valid.split_regex().as_str() == back.split_regex().as_str());
+            let re = |p: &linfa_preprocessing::CountVectorizerValidParams| p.split_regex().as_str().to_string();
+            same_behaviour(obs, V, fmt, "split_regex", &observe(|| re(valid)), || re(&back), |x, y| x == y);
             must(obs, V, fmt, "n_gram_range", valid.n_gram_range() == back.n_gram_range());
             must(obs, V, fmt, "stopwords", valid.stopwords() == back.stopwords());
             if matches!(tk, Tk::DefaultRegex | Tk::Regex(_)) {
